@@ -7,6 +7,7 @@ pub mod c04;
 pub mod c11;
 pub mod c13;
 pub mod c14;
+pub mod c15;
 pub mod c17;
 pub mod c18;
 pub mod c19;
@@ -56,6 +57,7 @@ dispatch! {
     "C11" => c11,
     "C13" => c13,
     "C14" => c14,
+    "C15" => c15,
     "C17" => c17,
     "C18" => c18,
     "C19" => c19,
